@@ -200,7 +200,8 @@ CHECKS = {
         technique="Lean 4 theorem about the same memo-table machine shared by any number of threads under EVERY interleaving of the atomic sections the real functions consist of "
                   "(lock;lookup;unlock - compute - lock;store;unlock - lock;clear;unlock, ids recyclable between threads); trace validation of recorded concurrent runs against the "
                   "threaded Lean machine; schedule exploration of the real code: a deterministic PRNG-driven scheduler built on a sys.settrace line hook (schedule = replayable switch "
-                  "list) and free running threads with a 1 microsecond switch interval, each run in a fresh process, every call compared with the same call alone",
+                  "list) and free running threads with a 1 microsecond switch interval, each run in a fresh process, every call compared with the same call alone; a compiler-only scenario (deeply nested inputs next to small ones at the interpreter's "
+                  "default recursion limit); a static inventory of every write to process-wide state in the source, decided equal (table lemma) to the list the thread model accounts for",
         text="Kernel-checked (interleave_safe) for any number of threads, all programs and ALL schedules: if every thread follows the clear protocol on the graphs it owns, every query "
              "returns the value recomputed from the thread's own graph as it is at that moment and no section raises KeyError - the unlocked compute and the store 'after the cache may "
              "have been cleared in the meantime' are harmless, and recycled ids between threads are harmless; (interleave_sequential) hence, without ill-formed steps, every thread's query results are exactly those of its program run alone; "
@@ -208,7 +209,9 @@ CHECKS = {
              "what it returns alone, no foreign exception) is explored: quick ~20 scheduler runs (~10^6 yield points, ~10^5 thread switches) + ~20 free runs with 2-8 threads, thorough "
              "~500 + ~400; sequential-in-process and fresh-process references.",
         note="K3 abstraction as for C11; thread-private graphs (ownership) is an assumption of the theorem that the recorded runs are checked against (an op on a graph of another "
-             "thread would show as an ill-formed step). NOT modellable here, exploration only: the GIL's switch points inside C code (igraph, dict operations are atomic for the "
+             "thread would show as an ill-formed step). shared_inventory_pinned ties the model's list of shared state to an AST inventory of the current source (sys.set* and similar calls, global statements, mutated module-level "
+             "objects and the way they are mutated, unshadowed class-level mutables, class attribute writes, the generated parsers' class-level caches): a new shared write breaks "
+             "the build and triggers a targeted schedule search. NOT modellable here, exploration only: the GIL's switch points inside C code (igraph, dict operations are atomic for the "
              "scheduler), CPython's id recycling, the ANTLR runtime's shared ATN/DFA caches (half of the scheduler runs also trace the antlr4 ATN simulators so that switches happen "
              "inside adaptivePredict/addDFAState; known finding: the MESSAGE of a ParseError depends on which thread parsed first). The deterministic scheduler serialises threads: it "
              "explores interleavings at the granularity of traced lines of graph_utils, graph_minimizer, ssb_decompiler, explorerscript_reader, macro, compiler utils, ssb_compiler, "
